@@ -202,7 +202,7 @@ func checkLzmaWriter(prop string) func(a *checkArgs, r *Result) error {
 		defer dp.Close()
 		r.Rule = "generated (data x classic WriterConfig incl. all 225 property codes, Size = len incl. 0, EOSMarker on/off, both matchers, ByteWriter and plain sinks x partition) cases: real lzma.Writer -> real lzma.Reader, -> Lean decoder, header fields judged, -> Lean model re-encodes the parsed operations (bytes identical); explicit-size contract (short, exact, surplus). Non-trivial: input >= 16 bytes; distinct by (data, config, partition)."
 		rng := rand.New(rand.NewSource(a.seed))
-		n := 450
+		n := 1350
 		if a.tier == "thorough" {
 			n = 6000
 		}
@@ -248,7 +248,7 @@ func checkLzmaWriter(prop string) func(a *checkArgs, r *Result) error {
 			}(i, cs)
 		}
 		wg.Wait()
-		nscript := 600
+		nscript := 2000
 		if a.tier == "thorough" {
 			nscript = 10000
 		}
@@ -270,7 +270,7 @@ func checkLzmaWriter(prop string) func(a *checkArgs, r *Result) error {
 // c07Reader: valid classic streams from the liblzma corpus, the LZMA SDK samples shipped in
 // /repo/lzma/examples and the Lean spec encoder (three end modes, any lc/lp/pb, empty content).
 func c07Reader(a *checkArgs, r *Result, dp *DriverPool, rng *rand.Rand) error {
-	n := 500
+	n := 1500
 	if a.tier == "thorough" {
 		n = 8000
 	}
